@@ -15,6 +15,7 @@ import NR.Estimate
 import NR.WaitEst
 import NR.Seq
 import NR.StopGen
+import NR.Links
 namespace NR.Driver
 open NR
 
@@ -306,9 +307,36 @@ def stepSgen (ws : List String) : String :=
     | _, _, _ => "bad-op"
   | _ => "bad-op"
 
+/-- `links <attach|rollback|detach|reattach> <next csv> <prev csv> <inVeh csv> <prev:stop:next,…> <stops csv>`: the
+arrays after the operation according to NR.Links (attachMove / detachAll on the arrays before it). -/
+def stepLinks (ws : List String) : String :=
+  match ws with
+  | [op, nx, pv, iv, poss, stops] =>
+    let ints (s : String) : Option (List Int) := allSome ((s.splitOn ",").map String.toInt?)
+    let triple (q : String) : Option StopGen.Pos :=
+      match q.splitOn ":" with
+      | [x, y, z] => (match x.toNat?, y.toNat?, z.toNat? with
+        | some x, some y, some z => some ⟨x, y, z⟩
+        | _, _, _ => none)
+      | _ => none
+    match parseNatsCsv nx, parseNatsCsv pv, ints iv, allSome ((poss.splitOn ",").map triple), parseNatsCsv stops with
+    | some nx, some pv, some iv, some poss, some stops =>
+      let a : Links.Arr := { next := fun i => nx.getD i i, prev := fun i => pv.getD i i, inVeh := fun i => iv.getD i (-1) }
+      let b : Links.Arr :=
+        if op = "attach" then (Links.attachMove a poss).1
+        else if op = "rollback" then Links.detachAll (Links.attachMove a poss).1 stops
+        else if op = "detach" then Links.detachAll a stops
+        else (Links.attachMove (Links.detachAll a stops) poss).1
+      let idx := List.range nx.length
+      "links " ++ showCsv (idx.map (fun i => toString (b.next i))) ++ " " ++ showCsv (idx.map (fun i => toString (b.prev i))) ++ " " ++
+        showCsv (idx.map (fun i => toString (b.inVeh i)))
+    | _, _, _, _, _ => "bad-op"
+  | _ => "bad-op"
+
 def step (st : State) (line : String) : State × String :=
   match words line with
   | "seq" :: ws => (st, stepSeq ws)
+  | "links" :: ws => (st, stepLinks ws)
   | "sgen" :: ws => (st, stepSgen ws)
   | "est" :: ws => (st, stepEst ws)
   | "coll" :: ws => let (c, o) := stepColl st.coll ws; ({ st with coll := c }, o)
